@@ -54,6 +54,23 @@ ASSDMilli(shape, X, Y) ==
 
 ASSDScore(shape, X, Y) == LET iv == ASSDMilli(shape, X, Y) IN [lo |-> <<iv[1], 1000>>, hi |-> <<iv[2], 1000>>]
 
+\* Long-range variant (arrays with an axis of more than 46340 voxels): for every border voxel the
+\* squared distance to a nearest border voxel of the other set as a pair (Grid.SqBig), bounded for
+\* the milli interval by the max-norm and the 1-norm of the same difference vector.
+SqDistMapBig(shape, A, B) ==
+    LET ba == Border(shape, A)  bb == Border(shape, B)
+    IN [v \in ba |-> LET t == NearestBig(shape, v, bb) IN
+                     [sq |-> SqDistBig(shape, v, t), lo |-> Linf(shape, v, t), hi |-> L1(shape, v, t)]]
+ASSDMilliBig(shape, X, Y) ==
+    LET f   == SqDistMapBig(shape, X, Y)
+        g   == SqDistMapBig(shape, Y, X)
+        nA  == Cardinality(DOMAIN f)
+        nB  == Cardinality(DOMAIN g)
+        slo(h) == FoldSet(LAMBDA v, acc : acc + h[v].lo, 0, DOMAIN h)
+        shi(h) == FoldSet(LAMBDA v, acc : acc + h[v].hi, 0, DOMAIN h)
+    IN <<((1000 * slo(f)) \div nA + (1000 * slo(g)) \div nB) \div 2,
+         ((1000 * shi(f) + nA - 1) \div nA + (1000 * shi(g) + nB - 1) \div nB + 1) \div 2>>
+
 \* exactly zero iff both bags are all-zero, i.e. the borders coincide
 ASSDIsZero(shape, X, Y) == Border(shape, X) = Border(shape, Y)
 
